@@ -158,7 +158,7 @@ class C04(NlpCheck):
           'Ns': [1, 2, 3, 3, 4, 5], 'Ms': [1, 2], 'degrees': [1, 2]}, 30, 400),
         ("constraint-rows-all-methods",      # index-1 DAE under DirectCollocation: algebraic values of the point inside the constraints
          {'methods': [('dc', 'rk')], 'grids': ['uniform', 'geometric', 'free'], 'horizon': ['num', 'freeT'],
-          'obj_kinds': ['at_tf'], 'ncons': (1, 3), 'scale_prob': 0.2, 'offset_prob': 0.0, 'features': {'dae': 1.0}, 'z_in_constraints': True,
+          'obj_kinds': ['at_tf'], 'ncons': (1, 3), 'scale_prob': 0.2, 'offset_prob': 0.0, 'alg_layouts': [[1], [2], [1, 2], [2, 1]], 'features': {'dae': 1.0}, 'z_in_constraints': True,
           'Ns': [1, 2, 3], 'Ms': [1, 2, 3], 'degrees': [1, 2, 3]}, 15, 200),
     ]
 
@@ -555,7 +555,7 @@ class C02(NlpCheck):
           'Ns': [1, 2, 2, 3, 4], 'Ms': [1, 2, 2, 3, 4], 'degrees': [1, 2, 3, 4, 5]}, 45, 500),
         ("dae-rows",
          {'methods': [('dc', 'rk')], 'grids': FIXED_GRIDS + ['free'], 'horizon': ['num', 'freeT'], 'obj_kinds': ['at_tf'], 'ncons': (0, 1),
-          'features': {'dae': 1.0, 'pc': 0.5}, 'Ns': [1, 2, 3], 'Ms': [1, 2, 3], 'degrees': [1, 2, 3, 4]}, 25, 300),
+          'alg_layouts': [[1], [2], [1, 2], [2, 1]], 'features': {'dae': 1.0, 'pc': 0.5}, 'Ns': [1, 2, 3], 'Ms': [1, 2, 3], 'degrees': [1, 2, 3, 4]}, 25, 300),
     ]
 
     def explanation(self):
@@ -1440,7 +1440,7 @@ class C07(SampleCheck):
             # stratified head: an index-1 DAE under DirectCollocation with M > 1, the algebraic variable inside the sampled
             # expression on every grid (interior integrator points have their own algebraic value)
             dae_case = it_ < (4 if self.tier == 'quick' else 40)
-            desc = self.gen({'methods': [('dc', 'rk')], 'Ms': [2, 3], 'features': {'qstate': 0.3, 'dae': 1.0, 'pc': 0.4, 'pcp': 0.3, 'vc': 0.3, 'vcp': 0.3}}) if dae_case else self.gen()
+            desc = self.gen({'methods': [('dc', 'rk')], 'Ms': [2, 3], 'alg_layouts': [[1], [2], [1, 2], [2, 1]], 'features': {'qstate': 0.3, 'dae': 1.0, 'pc': 0.4, 'pcp': 0.3, 'vc': 0.3, 'vcp': 0.3}}) if dae_case else self.gen()
             try:
                 b = B.build(desc)
             except Exception as e:
@@ -1625,8 +1625,10 @@ class C08(SampleCheck):
     def refine_slice(self):
         import casadi as ca
         n = 30 if self.tier == 'quick' else 400
-        for _ in range(n):
-            desc = self.gen()
+        for it_ in range(n):
+            # the first cases are DAEs under DirectCollocation with several integrator steps per interval
+            desc = self.gen({'methods': [('dc', 'rk')], 'Ms': [2, 3], 'features': {'qstate': 0.3, 'dae': 1.0, 'pc': 0.4, 'vc': 0.3},
+                             'alg_layouts': [[1], [2], [1, 1]]}) if it_ < (4 if self.tier == 'quick' else 40) else self.gen()
             try:
                 b = B.build(desc)
             except Exception as e:
@@ -1652,6 +1654,10 @@ class C08(SampleCheck):
             # every M-th integrator entry is the control-grid entry (times and state values)
             with B.quiet():
                 X = b.Xsym
+                if b.algs:
+                    # algebraic variables ride along: their refined / integrator / control samples nest in the same way
+                    X = ca.vertcat(X, *[ca.vec(z_) for z_ in b.algs])
+                    self.count("nesting-with-algebraics")
                 tc, xc = b.ocp.sample(X, grid='control')
                 ti, xi = b.ocp.sample(X, grid='integrator')
                 tf_, xf_ = b.ocp.sample(X, grid='integrator', refine=r_)
@@ -1666,7 +1672,7 @@ class C08(SampleCheck):
                 o = W([xv, pv])
             except (ZeroDivisionError, OverflowError):
                 continue
-            nx = sum(desc['states'])
+            nx = sum(desc['states']) + (sum(desc['algs']) if b.algs else 0)
             N, M = desc['method']['N'], desc['method']['M']
             bad = None
             for m in range(N * M):         # the last refined point is the end of the last polynomial (feasible points only)
@@ -2440,7 +2446,8 @@ class C10(Check):
         n = 110 if self.tier == 'quick' else 1200
         prof = {'methods': ALLM + [('ss', 'euler')], 'grids': FIXED_GRIDS + ['free', 'uniform_locT', 'uniform_locT0', 'geometric_locT'],
                 'horizon': ['num', 'freeT', 'freet0', 'freeboth', 'param'], 'obj_kinds': ['at_tf', 'integral'], 'ncons': (0, 1),
-                'features': {'dae': 0.3, 'v': 0.5, 'vc': 0.5, 'vcp': 0.5, 'p': 0.5}, 'Ns': [1, 2, 3, 4], 'Ms': [1, 2, 3], 'degrees': [1, 2, 3]}
+                'features': {'dae': 0.3, 'v': 0.5, 'vc': 0.5, 'vcp': 0.5, 'p': 0.5}, 'Ns': [1, 2, 3, 4], 'Ms': [1, 2, 3], 'degrees': [1, 2, 3],
+                'alg_layouts': [[1], [2, 1], [1, 2], [2], [1, 1], [2, 1]]}
         forced = 20 if self.tier == 'quick' else 200
         for it in range(n + forced):
             force = it >= n     # dedicated cases: expression of time first, horizon guess last, after transcription
